@@ -166,6 +166,9 @@ def c07(tier, seed):
                                   rq({"S5": F(1), "F5": F(-1)}, measure="lots")], epsilon=F(1, 1000), maxrebal=3,
                             invariants=["NoSpuriousFailure"])
     broker_check.explore_and_replay(rep, bm, {"track_replay"})
+    # the container on its own (TrackRecord.tla, every path): stamps arriving in any order, duplicated stamps, burn-in
+    from . import trackrecord_check
+    trackrecord_check.check(rep, tier, {"container"})
     # code -> spec: stamps of the executions recorded from the repository's own back-tests (EnvTrace.tla, clause stamp)
     from . import envtrace_check
     envtrace_check.validate_repo_tests(rep, tier, {"stamp"})
